@@ -3,12 +3,14 @@ package c18
 import (
 	"fmt"
 	"os"
+	"path/filepath"
 	"regexp"
 	"sort"
 	"strconv"
 	"strings"
 	"sync"
 
+	"compiler/verifh/fe"
 	"compiler/verifh/run"
 	"compiler/verifh/vl"
 )
@@ -25,7 +27,9 @@ type obs struct {
 type runner struct {
 	c        *vl.Ctx
 	rn       *run.Runner
+	pool     *fe.Pool // wasm only: the compiler's own pipeline in worker processes (no process start per program)
 	target   string
+	workers  int
 	mu       sync.Mutex
 	programs int64
 }
@@ -50,11 +54,36 @@ func canonReason(s string) string {
 
 // compile builds the pack; on failure it returns, per case index, the first error message
 // located inside that case's lines (attr), and a general message.
-func (r *runner) compile(src string, lines [][2]int) (b run.Built, dir string, attr map[int]string, msg string) {
+func (r *runner) compile(src string, lines [][2]int, real bool) (b run.Built, dir string, attr map[int]string, msg string) {
 	r.mu.Lock()
 	r.programs++
 	r.mu.Unlock()
 	dir = r.rn.NewDir()
+	if r.target == "wasm" && r.pool != nil && !real {
+		res := r.pool.Do(&fe.Project{Files: map[string]string{"main.fer": src}, Entry: "main.fer", Mode: "wasm", NoRender: true})
+		if res.Success && len(res.Wasm) > 0 && res.Panic == "" && res.Crash == "" && !res.Timeout {
+			out := filepath.Join(dir, "out.wasm")
+			os.WriteFile(out, res.Wasm, 0o644)
+			return run.Built{Dir: dir, Artifact: out, Exists: true}, dir, nil, ""
+		}
+		attr = map[int]string{}
+		for _, d := range res.Errors() {
+			if msg == "" {
+				msg = canonReason("error: " + d.Msg)
+			}
+			for i, lr := range lines {
+				if d.Line >= lr[0] && d.Line <= lr[1] {
+					if _, ok := attr[i]; !ok {
+						attr[i] = canonReason("error: " + d.Msg)
+					}
+				}
+			}
+		}
+		if msg == "" {
+			msg = canonReason(fmt.Sprintf("compiler failed: panic=%q crash=%q timeout=%v runerr=%q", res.Panic, res.Crash, res.Timeout, res.RunErr))
+		}
+		return run.Built{Dir: dir}, dir, attr, msg
+	}
 	run.WriteFiles(dir, map[string]string{"main.fer": src})
 	if r.target == "wasm" {
 		b = r.rn.CompileWasm(dir, "main.fer")
@@ -144,7 +173,7 @@ func splitLines(s string) []string {
 // observe fills res[i] for the cases idx (indices into cases) by packing them into one
 // program; rejected cases are attributed by source line and the rest is re-packed; a pack that
 // dies inside a case gives that case a crash observation and the remaining ones are re-packed.
-func (r *runner) observe(cases []*bcase, idx []int, res []obs) {
+func (r *runner) observe(cases []*bcase, idx []int, res []obs, real bool) {
 	if len(idx) == 0 {
 		return
 	}
@@ -163,7 +192,7 @@ func (r *runner) observe(cases []*bcase, idx []int, res []obs) {
 			os.WriteFile(fmt.Sprintf("%s/%s_%d_%d.fer", d, r.target, len(idx), n), []byte(src), 0o644)
 		}
 	}
-	b, dir, attr, msg := r.compile(src, lines)
+	b, dir, attr, msg := r.compile(src, lines, real)
 	defer os.RemoveAll(dir)
 	if attr != nil {
 		if len(idx) == 1 {
@@ -177,8 +206,8 @@ func (r *runner) observe(cases []*bcase, idx []int, res []obs) {
 		if len(attr) == 0 {
 			// no error could be attributed: halve
 			h := len(idx) / 2
-			r.observe(cases, idx[:h], res)
-			r.observe(cases, idx[h:], res)
+			r.observe(cases, idx[:h], res, real)
+			r.observe(cases, idx[h:], res, real)
 			return
 		}
 		var rest []int
@@ -189,7 +218,7 @@ func (r *runner) observe(cases []*bcase, idx []int, res []obs) {
 				rest = append(rest, i)
 			}
 		}
-		r.observe(cases, rest, res)
+		r.observe(cases, rest, res, real)
 		return
 	}
 	out, term := r.execute(b)
@@ -233,12 +262,12 @@ func (r *runner) observe(cases []*bcase, idx []int, res []obs) {
 	}
 	rest := idx[cur:]
 	if cur > 0 {
-		r.observe(cases, rest, res)
+		r.observe(cases, rest, res, real)
 		return
 	}
 	h := len(rest) / 2
-	r.observe(cases, rest[:h], res)
-	r.observe(cases, rest[h:], res)
+	r.observe(cases, rest[:h], res, real)
+	r.observe(cases, rest[h:], res, real)
 }
 
 // judge compares an observation with the model; "" = agrees.
@@ -284,17 +313,25 @@ func judge(k *bcase, o obs) string {
 	return strings.TrimSuffix(b.String(), "; ")
 }
 
+// targetResult is the summary of one target.
+type targetResult struct {
+	judged, rejected, programs, timeouts int64
+	fam                                  map[string][2]int64
+}
+
 // runTarget observes and judges all cases on one target.
-func runTarget(c *vl.Ctx, rn *run.Runner, target string, cases []*bcase, packSize, confirmCap int) (judged, rejected int64, programs int64, fam map[string][2]int64) {
-	r := &runner{c: c, rn: rn, target: target}
+func runTarget(c *vl.Ctx, r *runner, cases []*bcase, packSize, confirmCap int) targetResult {
+	target := r.target
 	res := make([]obs, len(cases))
-	// packs: consecutive cases of the same (phase, kind, root constructor) class, so that
-	// rejections (which are per construct) concentrate in few packs
+	// packs: cases of the same (phase, kind, optional-ness, root constructor) class — rejections
+	// are per construct, so they concentrate in few packs — simplest types first
 	order := make([]int, len(cases))
 	for i := range order {
 		order[i] = i
 	}
-	cls := func(k *bcase) string { return k.phase + "/" + k.skind + "/" + fmt.Sprint(k.t.hasOpt()) + "/" + k.t.rootName() }
+	cls := func(k *bcase) string {
+		return fmt.Sprintf("%d/%s/%s/%v/%s", k.t.depth(), k.phase, k.skind, k.t.hasOpt(), k.t.rootName())
+	}
 	sort.SliceStable(order, func(a, b int) bool { return cls(cases[order[a]]) < cls(cases[order[b]]) })
 	var packs [][]int
 	for i := 0; i < len(order); {
@@ -307,25 +344,27 @@ func runTarget(c *vl.Ctx, rn *run.Runner, target string, cases []*bcase, packSiz
 		i = j
 	}
 	done := make([]bool, len(cases))
-	vl.ParDo(len(packs), 14, func(pi int) {
+	vl.ParDo(len(packs), r.workers, func(pi int) {
 		if c.OverBudget() {
 			return
 		}
-		r.observe(cases, packs[pi], res)
+		r.observe(cases, packs[pi], res, false)
 		for _, i := range packs[pi] {
 			done[i] = true
 		}
 	})
-	// judge; disagreeing packed observations are confirmed alone (up to confirmCap per class)
+	// judge; disagreeing packed observations are confirmed on a program of their own, built by
+	// the real compiler binary (up to confirmCap per class)
 	type pend struct {
 		i   int
 		msg string
 	}
 	var pending []pend
-	fam = map[string][2]int64{}
+	out := targetResult{fam: map[string][2]int64{}}
 	confirmed := map[string]int{}
 	for i, k := range cases {
 		if !done[i] {
+			c.Count("cases_not_reached_within_budget/"+target, 1)
 			continue
 		}
 		o := res[i]
@@ -333,54 +372,74 @@ func runTarget(c *vl.Ctx, rn *run.Runner, target string, cases []*bcase, packSiz
 		if k.t.k != kOpt && k.t.k != kRes && k.t.hasOpt() {
 			f += "+opt"
 		}
-		e := fam[f]
+		e := out.fam[f]
 		if o.rejected {
-			rejected++
+			out.rejected++
 			e[1]++
-			fam[f] = e
+			out.fam[f] = e
 			c.Outcome(fmt.Sprintf("%s/%s/%s rejected: %s", target, k.phase, k.skind, o.reason))
 			c.Count("rejected/"+target+"/"+k.t.rootName(), 1)
 			continue
 		}
 		e[0]++
-		fam[f] = e
-		judged++
-		c.Distinct(fmt.Sprintf(k.id, target))
+		out.fam[f] = e
+		if strings.HasPrefix(o.term, "crash:timeout") {
+			// a time-out on a shared machine is not an observation of the program
+			pending = append(pending, pend{i, "timeout"})
+			continue
+		}
 		msg := judge(k, o)
 		if msg == "" {
+			out.judged++
+			c.Distinct(fmt.Sprintf(k.id, target))
 			c.Outcome(fmt.Sprintf("%s/%s/%s agrees", target, k.phase, k.skind))
 			continue
 		}
-		if !o.alone {
-			key := target + "/" + k.phase + "/" + k.skind
-			if confirmed[key] < confirmCap {
-				confirmed[key]++
-				pending = append(pending, pend{i, msg})
-				continue
-			}
-			c.Count("failing_cases_observed_in_pack_only", 1)
+		key := target + "/" + k.phase + "/" + k.skind
+		if confirmed[key] < confirmCap {
+			confirmed[key]++
+			pending = append(pending, pend{i, msg})
+			continue
 		}
+		out.judged++
+		c.Distinct(fmt.Sprintf(k.id, target))
+		c.Count("failing_cases_observed_in_pack_only", 1)
 		r.fail(k, o, msg)
 	}
-	vl.ParDo(len(pending), 14, func(pi int) {
+	var mu sync.Mutex
+	vl.ParDo(len(pending), r.workers, func(pi int) {
 		p := pending[pi]
 		k := cases[p.i]
 		one := make([]obs, len(cases))
-		r.observe(cases, []int{p.i}, one)
+		r.observe(cases, []int{p.i}, one, true)
 		o := one[p.i]
+		mu.Lock()
+		defer mu.Unlock()
+		if strings.HasPrefix(o.term, "crash:timeout") {
+			out.timeouts++
+			c.Count("timeouts_not_judged/"+target, 1)
+			c.Outcome(target + " timeout (not judged)")
+			return
+		}
+		out.judged++
+		c.Distinct(fmt.Sprintf(k.id, target))
 		if o.rejected {
-			// accepted in a pack, rejected alone: report as it is
 			r.fail(k, o, "accepted when packed with other cases but rejected as a program of its own: "+o.reason)
 			return
 		}
 		msg := judge(k, o)
 		if msg == "" {
+			if p.msg == "timeout" {
+				c.Outcome(fmt.Sprintf("%s/%s/%s agrees", target, k.phase, k.skind))
+				return
+			}
 			r.fail(k, res[p.i], "differs only when packed with other cases (agrees as a program of its own): "+p.msg)
 			return
 		}
 		r.fail(k, o, msg)
 	})
-	return judged, rejected, r.programs, fam
+	out.programs = r.programs
+	return out
 }
 
 func (r *runner) fail(k *bcase, o obs, msg string) {
